@@ -342,6 +342,24 @@ class Labeller:
         return out
 
 
+def widen_root(rng, lab, extras):
+    """An ordered labelling whose ROOT order strictly contains the leaf families (what the ordered solvers
+    write for an input with a prescribed root order): insert the unused families `extras` at random
+    positions of the root, and keep each of them in a random top part of the internal nodes."""
+    root = list(lab["f"])
+    for x in extras:
+        root.insert(rng.randint(0, len(root)), x)
+
+    def rec(node, parent_f, keep):
+        if "c" not in node:
+            return {"f": node["f"]}
+        f = [y for y in parent_f if y in node["f"] or y in keep]
+        kids = [rec(c, f, {x for x in keep if rng.random() < 0.5}) for c in node["c"]]
+        return {"f": f, "c": kids}
+
+    return rec(lab, root, set(extras))
+
+
 def merge(mapping, labels):
     d = {"s": mapping["s"], "f": labels["f"]}
     if "c" in mapping:
@@ -455,7 +473,10 @@ def judge(ctx, res, items, check_valid=True):
         reqs.append({"op": "eval", **base})
         reqs.append({"op": "c06_recount", **base})
         if check_valid:
-            reqs.append({"op": "valid", "O": it["case"]["O"], "mode": it["mode"], "sol": it["sol"]})
+            vreq = {"op": "valid", "O": it["case"]["O"], "mode": it["mode"], "sol": it["sol"]}
+            if it["case"].get("root") is not None:
+                vreq["root"] = it["case"]["root"]  # validity under the prescribed root order (Spec.validSolPre)
+            reqs.append(vreq)
     outs = iter(ctx.driver.parallel(reqs))
     for it in items:
         model, spec = next(outs), next(outs)
@@ -476,6 +497,8 @@ def judge(ctx, res, items, check_valid=True):
             res.dist["has SEGMENTAL_LOSS"] += 1
         if it.get("float_inf"):
             res.dist["float-inf"] += 1
+        if it.get("wide_root"):
+            res.dist["ordered: root order strictly contains the leaf families"] += 1
         if not ok_valid or exp["invalid"]:
             # the generators of this module and the Lean validity predicate must agree
             res.tie_broken("harness-enumerated solution is not valid for Spec.validSol", key, ok_valid, exp["invalid"])
@@ -534,6 +557,12 @@ def items_for_input(rng, inp, order, nfam, map_cap, lab_cap, per_map):
                 case = {"S": S, "O": O, "costs": rand_costs(rng)}
                 items.append({"case": case, "sol": merge(m, lab), "mode": mode,
                               "float_inf": rng.random() < 0.3})
+                if mode == "ordered" and "c" in lab and rng.random() < 0.25:
+                    # prescribed root order strictly containing the leaf families (1-2 unused families)
+                    wide = widen_root(rng, lab, [nfam + i for i in range(rng.randint(1, 2))])
+                    case = {"S": S, "O": O, "costs": rand_costs(rng), "root": wide["f"]}
+                    items.append({"case": case, "sol": merge(m, wide), "mode": mode,
+                                  "float_inf": rng.random() < 0.3, "wide_root": True})
     return items, exhaustive
 
 
